@@ -125,6 +125,9 @@ def run_x01(ctx):
     cases = ctx.tlcgen("MvtLayerMC", "MvtLayerGen.cfg", workers=2)
     shards = ctx.gen("mvtlayer", cases=cases)
     ctx.validate("MvtLayer_Trace", shards)
+    # sequences of operations on the same layers: the trace spec carries every layer's feature list from step to step
+    shards = ctx.gen("mvtpipeline")
+    ctx.validate("MvtLayerPipe_Trace", shards, stage="pipeline-histories")
     ctx.exhaustive = True
 
 
